@@ -27,6 +27,7 @@ func cmdReplay(args []string) {
 	up := fs.String("universe", "", "universe json")
 	vp := fs.String("vectors", "", "vectors json (list of cases with exp/expK)")
 	strat := fs.String("strategies", "iface,any", "resolver strategies to realise the data with")
+	offer := fs.Bool("offer-mutation", false, "every root is first offered a type Mutation in a document it refuses (universes without a mutation root)")
 	rotp := fs.Int("rot", -1, "cases are spread over list modes, binding modes and layouts by position; rot shifts the assignment (default: the seed)")
 	_ = fs.Parse(args)
 	rot := *rotp
@@ -67,6 +68,13 @@ func cmdReplay(args []string) {
 				}
 				w.KeepLists = true
 				worlds["refl"+string(rune('0'+int(b)))] = w
+			}
+		}
+	}
+	if *offer {
+		for _, w := range worlds {
+			if err := w.OfferMutation(); err != nil {
+				vh.Die("%s", err)
 			}
 		}
 	}
